@@ -20,6 +20,7 @@ ASSUMPTIONS = [
     'cross-process determinism cannot be exhibited by a model: it is established by running every multi-alternative request in several fresh interpreters (different PYTHONHASHSEED, different prior allocation) and comparing',
     'no two alternatives of one row share (location, declared_at): checked per row; rows with ties are compared as sets',
     'CPython dict insertion order and sorted() stability (trusted)',
+    'attribute evaluation (CompositeValue, MultiValue, module exports) and module search order are outside the Coq model: covered by the scenario runs only',
 ]
 
 WORKER = r'''
@@ -71,6 +72,205 @@ for job in jobs:
     out.append(res)
 json.dump(out, sys.stdout)
 '''
+
+WORKER2 = r'''
+import sys, json, os
+junk = [object() for _ in range(int(sys.argv[2]))]
+junk2 = [str(i) * 3 for i in range(int(sys.argv[2]) // 7)]
+sys.path.insert(0, os.environ['SUPP_REPO'])
+import logging
+logging.disable(logging.CRITICAL)
+from supp.project import Project
+from supp.assistant import location, assist
+jobs = json.load(open(sys.argv[1]))
+out = []
+for job in jobs:
+    res = []
+    for kind, src, pos, fn in job['requests']:
+        try:
+            proj = Project(job['roots'])
+            if kind == 'location':
+                r = location(proj, src, tuple(pos), fn)
+                res.append([[[list(d['loc']), d['file']] for d in x] if isinstance(x, list) else [list(x['loc']), x['file']] for x in r])
+                r2 = location(proj, src, tuple(pos), fn)          # and once more on the same Project
+                res.append(r2 == r)
+            else:
+                p, names = assist(proj, src, tuple(pos), fn)
+                res.append([p, [n for n in names if not n.startswith('__')][:60]])
+        except Exception as e:
+            res.append('EXC:' + type(e).__name__)
+    out.append(res)
+json.dump(out, sys.stdout)
+'''
+
+
+def gen_attr_scenario(rng, root, idx):
+    """A name bound in several branches to DIFFERENT objects sharing an attribute, reached
+    (a) directly, (b) through function results, (c) through self.x assigned in several methods
+    (MultiValue), (d) through a project module exporting a multiply-defined name.
+    Returns (requests, expectations): expectation = [file, (line, col)] of the definition of the
+    attribute in the class bound FIRST in source order."""
+    k = rng.randint(2, 5)
+    names = ['C%d' % i for i in range(k)]
+    attr = rng.choice(['run', 'go', 'value_of'])
+    lines, defpos = [], {}
+    for n in names:
+        lines.append('class %s(object):' % n)
+        if rng.random() < 0.5:
+            lines.append('    tag = %r' % n)
+        lines.append('    def %s(self):' % attr)
+        defpos[n] = (len(lines), 8)
+        lines.append('        return %d' % rng.randint(0, 9))
+    order = names[:]
+    rng.shuffle(order)
+    shape = rng.choice(['branch', 'func', 'multivalue', 'module', 'try'])
+    reqs, exps = [], []
+    fn = os.path.join(root, 'main%d.py' % idx)
+
+    def branches(target, exprs, indent=''):
+        out = []
+        for j, e in enumerate(exprs):
+            kw = 'if' if j == 0 else ('elif' if j < len(exprs) - 1 else 'else')
+            out.append(indent + (kw + ' c%d:' % j if kw != 'else' else 'else:'))
+            out.append(indent + '    %s = %s' % (target, e))
+        return out
+
+    if shape in ('branch', 'func', 'try'):
+        if shape == 'func':
+            for n in order:
+                lines += ['def mk_%s():' % n, '    return %s()' % n]
+            exprs = ['mk_%s()' % n for n in order]
+        else:
+            exprs = ['%s()' % n for n in order]
+        if shape == 'try':
+            lines += ['try:', '    worker = %s' % exprs[0], 'except E:', '    worker = %s' % exprs[1], 'else:', '    pass']
+        else:
+            lines += branches('worker', exprs)
+        lines.append('worker.%s' % attr)
+        src = '\n'.join(lines) + '\n'
+        reqs.append(['location', src, [len(lines), len('worker.') + len(attr)], fn])
+        exps.append([fn, list(defpos[order[0]])])
+        reqs.append(['assist', src[:-len(attr) - 1] + '\n', [len(lines), len('worker.')], fn])
+        exps.append(None)
+    elif shape == 'multivalue':
+        lines.append('class Holder(object):')
+        for j, n in enumerate(order):
+            lines += ['    def m%d(self):' % j, '        self.x = %s()' % n]
+        lines += ['    def use(self):', '        self.x.%s' % attr]
+        src = '\n'.join(lines) + '\n'
+        reqs.append(['location', src, [len(lines), len('        self.x.') + len(attr)], fn])
+        exps.append([fn, list(defpos[order[0]])])
+    else:
+        mod = 'm%d' % idx
+        mlines = lines + branches('exported', ['%s()' % n for n in order])
+        open(os.path.join(root, mod + '.py'), 'w').write('\n'.join(mlines) + '\n')
+        mfn = os.path.join(root, mod + '.py')
+        src = 'from %s import exported\nexported.%s\nimport %s\n%s.exported.%s\n' % (mod, attr, mod, mod, attr)
+        reqs.append(['location', src, [2, len('exported.') + len(attr)], fn])
+        exps.append([mfn, list(defpos[order[0]])])
+        reqs.append(['location', src, [4, len(mod) + len('.exported.') + len(attr)], fn])
+        exps.append([mfn, list(defpos[order[0]])])
+    return shape, reqs, exps
+
+
+def gen_roots_scenario(rng, base, idx):
+    """the same module name under several source roots (and under a root and sys.path): the first
+    root must win, in every process"""
+    k = rng.randint(2, 4)
+    roots = []
+    mod = rng.choice(['shared_conf', 'settings_x', 'util_dup'])
+    for j in range(k):
+        r = os.path.join(base, 'roots%d' % idx, 'r%d' % j)
+        os.makedirs(r)
+        roots.append(r)
+        pad = '\n' * rng.randint(0, 4)
+        open(os.path.join(r, mod + '.py'), 'w').write('%svalue = %d\nonly_%d = True\n' % (pad, j, j))
+    stdlib_dup = rng.random() < 0.5
+    if stdlib_dup:                       # a source root against a sys.path entry
+        open(os.path.join(roots[0], 'colorsys.py'), 'w').write('value = 0\nmine = True\n')
+    rng.shuffle(roots)
+    fn = os.path.join(roots[0], 'main.py')
+    first = os.path.join(roots[0], mod + '.py')
+    npad = open(first).read().count('\n') - 2
+    reqs = [['location', 'import %s\n%s.value\n' % (mod, mod), [2, len(mod) + 6], fn],
+            ['location', 'import %s\n' % mod, [1, 7 + len(mod)], fn],
+            ['assist', 'import %s\n%s.\n' % (mod, mod), [2, len(mod) + 1], fn],
+            ['assist', 'from %s import \n' % mod, [1, len('from %s import ' % mod)], fn]]
+    exps = [[first, [npad + 1, 0]], [first, [1, 0]], None, None]
+    if stdlib_dup and os.path.exists(os.path.join(roots[0], 'colorsys.py')):
+        reqs.append(['location', 'import colorsys\ncolorsys.value\n', [2, 14], fn])
+        exps.append([os.path.join(roots[0], 'colorsys.py'), [1, 0]])
+    return roots, reqs, exps
+
+
+def project_scenarios(ctx, nproc):
+    """attribute evaluation through CompositeValue / MultiValue / module exports and multi-root
+    projects, in the fresh-interpreter matrix"""
+    base = os.path.join(ctx.scratch, 'scen')
+    os.makedirs(base)
+    jobs, meta = [], []
+    for i in range(ctx.pick(40, 400)):
+        root = os.path.join(base, 'attr%d' % i)
+        os.makedirs(root)
+        shape, reqs, exps = gen_attr_scenario(ctx.rng, root, i)
+        jobs.append({'roots': [root], 'requests': reqs})
+        meta.append(('attr:' + shape, exps))
+        ctx.histogram('scenario', 'attr:' + shape)
+    for i in range(ctx.pick(15, 120)):
+        roots, reqs, exps = gen_roots_scenario(ctx.rng, base, i)
+        jobs.append({'roots': roots, 'requests': reqs})
+        meta.append(('roots', exps))
+        ctx.histogram('scenario', 'roots')
+    path = os.path.join(ctx.scratch, 'scen_jobs.json')
+    json.dump(jobs, open(path, 'w'))
+    wpath = os.path.join(ctx.scratch, 'c17_worker2.py')
+    open(wpath, 'w').write(WORKER2)
+
+    def one(cfg):
+        seed, alloc = cfg
+        rc, out, err = common.run_py(wpath, [path, str(alloc)], timeout=800, hashseed=seed)
+        if rc != 0:
+            raise RuntimeError('scenario worker failed (seed %s): %s' % (seed, err[-2000:]))
+        return json.loads(out)
+
+    with ThreadPoolExecutor(max_workers=nproc) as ex:
+        results = list(ex.map(one, CONFIGS[:nproc]))
+    nbad = 0
+    for j, job in enumerate(jobs):
+        kind, exps = meta[j]
+        outs = [json.dumps(results[p][j], sort_keys=True) for p in range(nproc)]
+        ctx.count(('scenario', j, kind, job['requests'][0][1]), nontrivial=True)
+        what = None
+        if len(set(outs)) > 1:
+            what = 'answers differ between fresh processes: %s' % sorted(set(outs))[:2]
+        else:
+            res = results[0][j]
+            ri = 0
+            for (rk, src, pos, fn), exp in zip(job['requests'], exps):
+                r = res[ri]
+                if rk == 'location':
+                    if res[ri + 1] is not True:
+                        what = 'two identical location() calls on one Project differ'
+                    ri += 2
+                    if exp is not None and not isinstance(r, str):
+                        first = r[0] if r else None
+                        if isinstance(first, list) and first and isinstance(first[0], list) and isinstance(first[0][0], list):
+                            first = first[0]
+                        got = [first[1], first[0]] if first else None
+                        if got != exp:
+                            what = 'location() is not the first alternative in source order / the first root: got %s expected %s' % (got, exp)
+                else:
+                    ri += 1
+        if what:
+            nbad += 1
+            if nbad <= 8:
+                ctx.violation('%s scenario: %s' % (kind, what[:400]),
+                              {'kind': 'scenario', 'scenario': kind, 'roots': job['roots'], 'requests': job['requests'],
+                               'files': {os.path.relpath(os.path.join(d, f), base): open(os.path.join(d, f)).read()
+                                         for r in job['roots'] for d, _, fs in os.walk(r) for f in fs if f.endswith('.py')}})
+    ctx.coverage['scenario_jobs'] = len(jobs)
+    ctx.coverage['scenario_disagreements'] = nbad
+
 
 CONFIGS = [('0', 0), ('1', 1000), ('2', 20000), ('31337', 333), ('4', 5000), ('random', 77777)]
 
@@ -218,9 +418,12 @@ def run(ctx):
                     break
     cov['multiprocess_disagreements'] = nviol
 
+    # ---- attribute evaluation / multi-root projects in the same process matrix -------------------
+    project_scenarios(ctx, nproc)
+
     # ---- (I): order of the real code (this process) = model order ----------------------------------
     prelude = fd.graph_prelude() + '''
-Definition check_c17 (c : bool * (graph * list (bid * (pos * pos)) * list (query * option (list alt)))) : bool :=
+Definition check_c17 (c : bool * hcase) : bool :=
   check_history (fst c) (snd c).
 '''
     bad = fd.run_sharded(ctx, ['Model.Layout', 'Model.FlowGraph', 'Model.Memo'], prelude, 'check_c17', terms)
